@@ -36,7 +36,7 @@ def main():
             continue
         meta = json.load(open(os.path.join(d, "meta.json")))
         root = make_copy(args.repo)
-        r = {"id": sid, "property": meta["property"], "needs": meta.get("needs")}
+        r = {"id": sid, "property": meta["property"], "needs": meta.get("needs"), "status": meta.get("status", "active")}
         try:
             p = subprocess.run(["patch", "-p1", "-s", "-i", os.path.join(d, "patch.diff")], cwd=root, capture_output=True, text=True)
             r["applies"] = p.returncode == 0
@@ -76,7 +76,8 @@ def main():
         prev = [x for x in json.load(open(out))["results"] if x["id"] not in {y["id"] for y in results}]
     allr = sorted(prev + results, key=lambda x: x["id"])
     json.dump({"results": allr,
-               "detected": sum(1 for x in allr if x.get("checks", {}).get(x["property"], {}).get("detected")),
+               "detected": sum(1 for x in allr if x.get("status") != "neutralised" and x.get("checks", {}).get(x["property"], {}).get("detected")),
+               "active": sum(1 for x in allr if x.get("status") != "neutralised"),
                "total": len(allr)}, open(out, "w"), indent=1)
     return 0
 
